@@ -27,7 +27,7 @@ LEVEL = META['level']
 RULE = ('a case = one faulted exchange (setting, fault kind, offset/frame) judged; distinct by that tuple; non-trivial = the fault falls after the Register reply, i.e. while operations are outstanding')
 ASSUMPTIONS = ['values are unique per element, so a result belonging to another request differs from the expected one', 'proxy is used as `with via: list(via.read(...))`, the documented way to have the gateway discarded on errors']
 REQUIRED = ['exchanges:fault-free', 'faults:s2c-cut', 'faults:c2s-cut', 'faults:reply-withheld', 'cut:on-frame-boundary', 'cut:inside-frame', 'setting:synchronous', 'setting:pipelined',
-            'setting:bundled', 'outcome:exception', 'outcome:complete', 'monitor:pairing', 'monitor:delivered-frames-bound', 'monitor:silent-short', 'proxy:faults', 'proxy:recovered', 'poll:failures', 'poll:recovered']
+            'setting:bundled', 'outcome:exception', 'outcome:complete', 'monitor:pairing', 'monitor:delivered-frames-bound', 'monitor:silent-short', 'proxy:faults', 'proxy:recovered', 'proxy:reply-lost-on-reused-connection', 'poll:failures', 'poll:recovered']
 TIMEOUT = {'quick': 300, 'thorough': 2400}
 SOFT = {'quick': 40, 'thorough': 900}
 
@@ -229,6 +229,49 @@ def proxy_part(ctx, sim, rng, rounds):
                 ctx.violation('proxy-returns-wrong-data-after-recovery', 'after a fault the next read returned %r, expected %r' % (again, want), wit)
                 continue
             ctx.count('proxy:recovered')
+            # a reply lost entirely on a connection that has already served an exchange of the same shape (how a proxy or poll loop
+            # re-uses its gateway): whatever the client still holds from the earlier exchange must not be taken for the answer
+            via.timeout = 20.0
+            # exchanges of the same shape repeat the same sender contexts: a single operation per call, or one bundle per call
+            saved_multiple = via.multiple
+            if r % 2:
+                via.multiple = 500
+            else:
+                attrs, idxs = attrs[:1], idxs[:1]
+            try:
+                with via:
+                    first = list(via.read(attrs))
+            except Exception as e:
+                via.multiple = saved_multiple
+                ctx.violation('proxy-does-not-recover', 'fault-free read before the lost-reply scenario raised %r' % (e,), wit)
+                continue
+            for j, i in enumerate(idxs):
+                sim.attributes()['F'][i] = value_of(i) + 500 + r          # the device moves on
+            now = [[value_of(i) + 500 + r] for i in idxs]
+            relay.mute_s2c = True
+            via.timeout = 0.4
+            got, exc = None, None
+            try:
+                with via:
+                    got = list(via.read(attrs))
+            except Exception as e:
+                exc = e
+            finally:
+                relay.mute_s2c = False
+                via.multiple = saved_multiple
+            ctx.count('proxy:reply-lost-on-reused-connection')
+            ctx.case(('proxy-reuse', tuple(attrs), r))
+            w2 = dict(wit, scenario='reply lost on a re-used connection', earlier=repr(first)[:200], result=repr(got)[:200], exception=repr(exc)[:200])
+            for i in idxs:
+                sim.attributes()['F'][i] = value_of(i)                    # back to the canonical state
+            if exc is None:
+                key = 'stale-reply-taken-for-the-answer' if got == first else 'proxy-returns-wrong-or-short-data-without-error'
+                ctx.violation(key, 'no byte reached the client, yet the read returned %r without error (the device holds %r; the previous exchange on this connection returned %r)' % (
+                    got, now, first), w2)
+                continue
+            if via.gateway is not None:
+                ctx.violation('proxy-keeps-broken-gateway', 'after a lost reply (%r) the proxy still holds its gateway' % (exc,), w2)
+                continue
     finally:
         relay.close()
 
